@@ -217,6 +217,11 @@ class Engine2:
             return V(e['fc'], e['fc'], True)
         if k == 'DeclRefExpr':
             key = ('v', e.get('id'))
+            cd = self._copy_def(e.get('id')) if getattr(self, 'fn', None) is not None and key in st.env else None
+            if cd is not None:
+                v = self.ev(cd, st)
+                if v is not None:
+                    return v
             if key in st.env and st.env[key] is not None:
                 return st.env[key]
             if 'fc' in e:
@@ -621,6 +626,7 @@ class Engine2:
                             tgt = x['e']
                         if tgt is not None and strip(tgt).get('k') == 'DeclRefExpr':
                             assigned.add(strip(tgt)['id'])
+            fn._e2_assigned = assigned
             c = {}
             for i, e in sd.items():
                 if not (e.get('t') or {}).get('bool') and strip(e).get('k') not in ('BinaryOperator', 'UnaryOperator'):
@@ -631,6 +637,29 @@ class Engine2:
                 if pure and stable:
                     c[i] = e
             fn._e2_booldefs = c
+        return c.get(vid)
+
+    def _copy_def(self, vid):
+        """initialiser of a local that is defined once as a (cast of a) variable which this function never writes, and is never
+        reassigned itself: `const unsigned requested = static_cast<unsigned>(numChips);`.  Such a local is read as its initialiser
+        under the CURRENT state, so that what later tests establish about either name holds for both."""
+        self._bool_def(-1)      # fills the caches
+        fn = self.fn
+        c = getattr(fn, '_e2_copydefs', None)
+        if c is None:
+            sd = single_defs(fn.d)
+            assigned = fn._e2_assigned
+            c = {}
+            for i, e in sd.items():
+                if i in assigned:
+                    continue
+                x = e
+                while isinstance(x, dict) and (x.get('k', '').endswith('CastExpr') or x.get('k') in ('ParenExpr',)) and 'e' in x:
+                    x = x['e']
+                if isinstance(x, dict) and x.get('k') == 'DeclRefExpr' and not x.get('fn') and 'c' not in x and x.get('id') not in assigned and x.get('id') != i \
+                        and not (x.get('t') or {}).get('p') and not (x.get('t') or {}).get('ref') and (x.get('t') or {}).get('w'):
+                    c[i] = e
+            fn._e2_copydefs = c
         return c.get(vid)
 
     def refine(self, c, pol, st, depth=0):
@@ -677,6 +706,9 @@ class Engine2:
         e = x
         while True:
             key = self.key_of(e)
+            if key is not None and key[0] == 'v' and getattr(self, 'fn', None) is not None and self._copy_def(key[1]) is not None and key in st.env:
+                e = self._copy_def(key[1])
+                continue
             if key is not None:
                 break
             e2 = e
